@@ -54,6 +54,7 @@ impl Prop for MiriUninit {
                 steps,
                 cycle: true,
                 fail_at: None,
+                fail_os: None,
                 poison: None,
             },
             requests: (0..1 + rng.below(6))
